@@ -28,7 +28,10 @@ impl<'a> ExpressionAnalyzer<'a> {
     }
 
     pub fn evaluate_expression(&mut self) -> Result<ValueType, TracedInterpreterError> {
-        self.evaluate_logical_or_expression()
+        self.program.enter_nested()?;
+        let result = self.evaluate_logical_or_expression();
+        self.program.leave_nested();
+        result
     }
 
     pub fn evaluate_array_index(&mut self) -> Result<usize, TracedInterpreterError> {
